@@ -206,3 +206,23 @@ def edges_where(b, is_a, is_b, rel, with_blocks=False):
                         out += es
                 break
     return out
+
+
+def stores_to_field(b, field):
+    """(block, statement) of every assignment whose target is the field `field` of some value - written
+    as `x.field = v`, or through a reference to the field (`*r = v` with r = &mut x.field, as in a
+    closure that captured just that field)."""
+    out = []
+    for (i, si, st) in b.assigns(lambda st: bool(st['lhs']['p'])):
+        p = st['lhs']['p']
+        if isinstance(p[-1], dict) and p[-1].get('name') == field:
+            out.append((i, st))
+            continue
+        if p == ['deref']:
+            v = b.local_val(st['lhs']['l'])
+            fs = [q for q in v.projs if q.startswith('.')]
+            # a reference taken of exactly that field: the last projections are [.field, ref]
+            tail = [q for q in v.projs if q != 'deref']
+            if tail and tail[-1] == 'ref' and len(tail) >= 2 and tail[-2] == '.' + field:
+                out.append((i, st))
+    return out
